@@ -43,6 +43,30 @@ pub mod virtual_position;
 
 pub use self::virtual_position::VirtualPosition;
 
+/// Scheduling hooks for the verification harness: a process-global callback invoked at the start
+/// and end of every block compression / inflation task of the multithreaded reader and writer.
+#[cfg(noodles_verif)]
+#[doc(hidden)]
+pub mod verif {
+    use std::sync::{Arc, RwLock};
+
+    pub type Hook = Arc<dyn Fn(&'static str, &[u8]) + Send + Sync>;
+
+    static HOOK: RwLock<Option<Hook>> = RwLock::new(None);
+
+    pub fn set_hook(hook: Option<Hook>) {
+        *HOOK.write().unwrap() = hook;
+    }
+
+    pub(crate) fn call(event: &'static str, data: &[u8]) {
+        let hook = HOOK.read().unwrap().clone();
+
+        if let Some(hook) = hook {
+            hook(event, data);
+        }
+    }
+}
+
 // XLEN (2)
 const GZIP_XLEN_SIZE: usize = 2;
 
